@@ -60,7 +60,7 @@ Theorem C17_ranges_step : forall m row rg entries,
   exists ty1 ty2 b2 m',
     range_rule (row_type r row) (rhs_of (r_b r) row) rg = Some (ty1, ty2, b2) /\
     add_range m (row, rg) = Ok m' /\
-    let new := fresh_row_name (S (List.length (r_a r))) (r_a r) (row +++ "_") in
+    let new := fresh_row_name (S (S (List.length (r_a r)))) (r_a r) (m_obj m) (row +++ "_") in
     let r' := m_rows m' in
     lookup new (r_a r') = Some entries /\
     rhs_of (r_b r') new = b2 /\
